@@ -14,6 +14,31 @@ theorem c08_nonfinite_absent (x : Ext K) (o : XOps K) (Yw : Mat n s K) (eps : K)
     (h : A.all o.isFinite = false) : computeCache x o Yw eps A = none := by
   simp [computeCache, h]
 
+/-- **c08_nonfinite_sigma_absent**: a decomposition whose singular values are not all finite (the
+SVD routine can produce NaN singular values for a finite matrix whose entries span very many orders
+of magnitude) is discarded: the cache is absent – a rejected state – and nothing downstream (the
+sorting of the singular values, the truncated solve) ever sees it. -/
+theorem c08_nonfinite_sigma_absent (x : Ext K) (o : XOps K) (Yw : Mat n s K) (eps : K) (A : Mat n m K)
+    (h : (x.svd n m A).sigma.all o.isFinite = false) : computeCache x o Yw eps A = none := by
+  unfold computeCache
+  by_cases hf : A.all o.isFinite = true
+  · simp [hf, h]
+  · simp [hf]
+
+/-- a present cache holds a decomposition with finite singular values of a finite matrix -/
+theorem c08_cache_finite (x : Ext K) (o : XOps K) (Yw : Mat n s K) (eps : K) (A : Mat n m K)
+    (c : Cache n m s K) (h : computeCache x o Yw eps A = some c) :
+    A.all o.isFinite = true ∧ c.svd.sigma.all o.isFinite = true := by
+  unfold computeCache at h
+  by_cases hf : A.all o.isFinite = true
+  · by_cases hs : (x.svd n m A).sigma.all o.isFinite = true
+    · simp only [hf, hs, if_true] at h
+      split at h
+      · cases h
+      · cases h; exact ⟨hf, hs⟩
+    · simp [hf, hs] at h
+  · simp [hf] at h
+
 /-- **c08_svd_guard**: `set_params` (hence `build`) does not depend on the behaviour of the SVD
 routine on matrices with non-finite entries: two routines that agree on finite matrices give the
 same problem.  In particular a routine that loops forever on NaN/∞ is never called there. -/
@@ -25,7 +50,7 @@ theorem c08_svd_guard (x x' : Ext K) (o : XOps K)
     intro Yw eps A
     unfold computeCache
     by_cases hf : A.all o.isFinite = true
-    · simp [hf, hagree A hf]
+    · rw [hagree A hf]
     · simp [hf]
   unfold Problem.setParams
   simp only [hc]
